@@ -2,7 +2,11 @@
 
 package local
 
-import "github.com/hashicorp/consul/agent/structs"
+import (
+	"time"
+
+	"github.com/hashicorp/consul/agent/structs"
+)
 
 // VerifSvc / VerifChk are raw views of one bookkeeping entry, including entries that are
 // marked Deleted and the placeholder entries updateSyncState creates for foreign catalog
@@ -45,4 +49,32 @@ func (l *State) VerifDump() (nodeInfoInSync bool, svcs []VerifSvc, chks []VerifC
 // local change between the diff and the push (SyncFull releases the lock between the two).
 func (l *State) VerifUpdateSyncState() error {
 	return l.updateSyncState()
+}
+
+// VerifFireDefer makes the pending deferred-output timer of a check (UpdateCheck with
+// CheckUpdateInterval > 0) fire now: the timer is rescheduled to zero and the REAL callback runs;
+// the call returns once the callback has cleared the entry's DeferCheck. False when no timer is pending.
+func (l *State) VerifFireDefer(id structs.CheckID) bool {
+	l.RLock()
+	c := l.checks[id]
+	var t *time.Timer
+	if c != nil {
+		t = c.DeferCheck
+	}
+	l.RUnlock()
+	if t == nil {
+		return false
+	}
+	t.Reset(0)
+	for i := 0; i < 50000; i++ {
+		time.Sleep(100 * time.Microsecond)
+		l.RLock()
+		cc := l.checks[id]
+		done := cc == nil || cc.DeferCheck != t
+		l.RUnlock()
+		if done {
+			return true
+		}
+	}
+	panic("deferred-output timer did not fire")
 }
